@@ -201,6 +201,8 @@ func (h *hist) newRequest() (*oracletypes.MsgRequestData, expect, *mRequest, str
 		script = sim.ScriptNoReturn
 	case x == 4:
 		script = sim.ScriptTrap
+	case x == 7:
+		script = sim.ScriptEmptyRet
 	case x == 5 && rng.Chance(1, 2):
 		script = sim.ScriptAskNone
 	case x == 6 && rng.Chance(1, 2):
@@ -470,6 +472,9 @@ func (h *hist) predictResult(r *mRequest) (oracletypes.ResolveStatus, []byte) {
 		return oracletypes.RESOLVE_STATUS_SUCCESS, []byte("test")
 	case sim.ScriptNoReturn, sim.ScriptTrap:
 		return oracletypes.RESOLVE_STATUS_FAILURE, []byte{}
+	case sim.ScriptEmptyRet: // a return value of length zero is still a return value
+		h.run.Count("resolve:SUCCESS-with-empty-result", 1)
+		return oracletypes.RESOLVE_STATUS_SUCCESS, []byte{}
 	case sim.ScriptComplex:
 		var ret []byte
 		for idx := range r.ids {
@@ -947,7 +952,7 @@ func main() {
 	for _, c := range []string{"resolve:SUCCESS", "resolve:FAILURE", "resolve:EXPIRED", "tx:rep-ok-late", "tx:rep-duplicate",
 		"tx:rep-not-chosen", "tx:rep-after-expiry", "tx:rep-wrong-extid", "tx:rep-wrong-size", "resolve-with-more-than-min-reports-in-block",
 		"tx:rep-unauthorised-exec", "result-bytes-compared", "same-block-report:rep-ok-intime", "same-block-report:rep-not-chosen",
-		"resolved-in-the-request's-own-block", "ibc:req-ok", "ibc:resolved-while-response-cannot-be-sent", "ibc:expired-while-response-cannot-be-sent"} {
+		"resolved-in-the-request's-own-block", "resolve:SUCCESS-with-empty-result", "ibc:req-ok", "ibc:resolved-while-response-cannot-be-sent", "ibc:expired-while-response-cannot-be-sent"} {
 		run.Require(c, 1)
 	}
 	run.Finish()
